@@ -850,6 +850,8 @@ class Exec:
                                 continue          # array created inside the loop body: not loop-carried state
                             r = cell_of(tt.value)
                             if r is None:
+                                if isinstance(tt.value, ast.Name) and st.env.get(tt.value.id, _MISSING) is None:
+                                    continue      # the name is bound to None here: a store through it can only raise, it modifies nothing
                                 raise Unsupported('store into unresolvable base %s in loop' % ast.unparse(tt.value))
                             cells.add(r.id)
                         elif isinstance(tt, ast.Attribute):
